@@ -27,14 +27,17 @@ CLAIMS = {
         text="Partial proof. Theorems: meaning of the witness predicate; every calculate_score-based path reports strictly increasing indices inside [start,end) of the haystack; "
              "the alignment reported by the optimal matcher's recurrence is a valid witness (one index per needle character, strictly increasing, inside the haystack and the "
              "window, each haystack character normalizing to its needle character: C02_optimalDP_valid_witness, prefix preference off; C02_optimalDP_spells_needle for every "
-             "configuration); failed matches carry no indices. Character agreement for the calculate_score paths, contiguity/anchoring and the equality of the real back-pointer "
+             "configuration); exact_match_impl, prefix and postfix matching report exactly the contiguous indices of their window, anchored right after the skipped leading / right "
+             "in front of the skipped trailing whitespace (companion file C02_Anchored: calculateScore_contiguous, C02_exactImpl_contiguous, C02_prefix_anchored, "
+             "C02_postfix_anchored); failed matches carry no indices. Character agreement for the greedy calculate_score paths and the equality of the real back-pointer "
              "matrix with the recurrence are checked on the implementation's output for every case (prior vector content random, must be untouched)."),
     "C03": dict(
         technique="Lean 4 theorems (constants = documented literals, bonus table, calculate_score loop and the optimal recurrence = scheme on the reported alignment) + scheme oracle on the implementation's alignment",
         text="Partial proof. Theorems: the extracted constants equal the documented numbers; bonus_for equals the documented 7x7 bonus table for every pair of classes and every "
              "configuration; calculate_score returns exactly the scheme's value of the alignment it reports for every window ending at the last match while the u16 accumulator is "
              "unsaturated (C03_calculateScore_eq_alignScore); the optimal matcher's two-matrix recurrence returns the scheme's value of the alignment it reports, for every haystack, "
-             "needle and window (C03_optimalDP_eq_alignScore, by cell invariants over all columns and rows). Not theorems: that each call site passes a window ending at the last "
+             "needle and window (C03_optimalDP_eq_alignScore, by cell invariants over all columns and rows); prefix, postfix and exact matching return the scheme's value of the contiguous "
+             "alignment they report (companion file C03_Anchored: C03_exactImpl_score, C03_anchored_score). Not theorems: that each call site passes a window ending at the last "
              "match, and the equality of the compressed u16 matrix with the recurrence - both are the correspondence (implementation = model on every case), and the oracle "
              "evaluates score = scheme on the reported indices for all six algorithms on every case; the u16 saturation for needles > 2520 characters is a KNOWN-FINDING."),
     "C04": dict(
